@@ -125,7 +125,7 @@ func (f *FuncIVL) expandPseudo(zero func(heapVar string) *Term) {
 				}
 			case SHavocSet:
 				for _, hv := range f.allHeapVars() {
-					if hv != "$alloc" && modsetMatches(s.Set, hv) {
+					if hv != "$alloc" && (modsetMatches(s.Set, hv) || (s.Set["F.packetDecoder.*"] && strings.HasPrefix(hv, "F.packetDecoder."))) {
 						out = append(out, &Stmt{Kind: SHavoc, Var: hv, Sort: f.Vars[hv], Note: s.Note})
 					}
 				}
@@ -153,7 +153,8 @@ func (f *FuncIVL) expandPseudo(zero func(heapVar string) *Term) {
 }
 
 // fillLoopHavocs inserts, at every cut loop head, a havoc of each variable assigned in the loop.
-func (f *FuncIVL) fillLoopHavocs() {
+func (f *FuncIVL) fillLoopHavocs(reg *SortReg) {
+	fresh := 0
 	for _, b := range f.Blocks {
 		if b.Loop == nil {
 			continue
@@ -183,6 +184,43 @@ func (f *FuncIVL) fillLoopHavocs() {
 			names = append(names, v)
 		}
 		sort.Strings(names)
+		// single-assignment temporaries, to resolve frozen references
+		defs := map[string]*Term{}
+		ndef := map[string]int{}
+		for _, bb := range f.Blocks {
+			for _, s := range bb.Stmts {
+				if s.Kind == SAssign || s.Kind == SHavoc {
+					ndef[s.Var]++
+					if s.Kind == SAssign {
+						defs[s.Var] = s.E
+					}
+				}
+			}
+		}
+		var resolve func(t *Term, depth int) *Term
+		resolve = func(t *Term, depth int) *Term {
+			if depth > 8 {
+				return nil
+			}
+			vs := map[string]string{}
+			t.Vars(vs)
+			sub := map[string]*Term{}
+			for v := range vs {
+				if !targets[v] {
+					continue
+				}
+				d, ok := defs[v]
+				if !ok || ndef[v] != 1 {
+					return nil
+				}
+				r := resolve(d, depth+1)
+				if r == nil {
+					return nil
+				}
+				sub[v] = r
+			}
+			return t.Subst(sub)
+		}
 		var hav []*Stmt
 		for _, v := range names {
 			if strings.HasSuffix(v, "@old") {
@@ -195,6 +233,126 @@ func (f *FuncIVL) fillLoopHavocs() {
 				hav = append(hav, &Stmt{Kind: SHavoc, Var: v, Sort: "Int"})
 				hav = append(hav, &Stmt{Kind: SAssume, E: Le(V("$alloc@pre"+fmt.Sprint(b.ID), "Int"), V("$alloc", "Int"))})
 				continue
+			}
+			// heap variables written only cell-wise at loop-invariant references: havoc those cells only
+			if f.HeapVars[v] && strings.HasPrefix(f.Vars[v], "(Array Int ") {
+				var refs []*Term
+				cellwise := true
+				shapeKept := map[string]bool{} // resolved ref -> all stores keep the slice shape
+				scan := func(stmts []*Stmt) {
+					for _, s := range stmts {
+						if (s.Kind != SAssign && s.Kind != SHavoc) || s.Var != v {
+							continue
+						}
+						if s.Kind == SAssign && s.E.Op == "store" && s.E.Args[0].Op == "var" && s.E.Args[0].Name == v {
+							r := resolve(s.E.Args[1], 0)
+							if r != nil {
+								refs = append(refs, r)
+								key := r.String()
+								keeps := false
+								val := s.E.Args[2]
+								if strings.HasPrefix(val.Sort, "Slice_") && val.Op == "mk_"+val.Sort && len(val.Args) == 5 {
+									keeps = true
+									for k, acc := range []string{"off_", "len_", "cap_", "nil_"} {
+										a := val.Args[k+1]
+										if !(a.Op == acc+val.Sort && len(a.Args) == 1 && a.Args[0].Op == "select" &&
+											a.Args[0].Args[0].Op == "var" && a.Args[0].Args[0].Name == v &&
+											a.Args[0].Args[1].String() == s.E.Args[1].String()) {
+											keeps = false
+										}
+									}
+								}
+								if prev, seen := shapeKept[key]; seen {
+									shapeKept[key] = prev && keeps
+								} else {
+									shapeKept[key] = keeps
+								}
+								continue
+							}
+						}
+						cellwise = false
+					}
+				}
+				for id := b.Loop.FirstBody; id <= b.Loop.LastBody && id < len(f.Blocks); id++ {
+					if id == b.Loop.ExitID || id == b.ID {
+						continue
+					}
+					scan(f.Blocks[id].Stmts)
+				}
+				scan(b.Stmts[b.Loop.HavocAt:])
+				if cellwise && len(refs) > 0 && len(refs) <= 6 {
+					es := arrayElemSort(f.Vars[v])
+					cur := V(v, f.Vars[v])
+					var pre []*Stmt
+					seen := map[string]bool{}
+					for _, r := range refs {
+						if seen[r.String()] {
+							continue
+						}
+						seen[r.String()] = true
+						fresh++
+						tn := fmt.Sprintf("$lh%d_%d", b.ID, fresh)
+						if shapeKept[r.String()] {
+							// only the elements of the slice stored in this cell change
+							as := arraySort("Int", reg.sliceElem(es))
+							f.declare(tn, as)
+							pre = append(pre, &Stmt{Kind: SHavoc, Var: tn, Sort: as})
+							old := Select(V(v, f.Vars[v]), r)
+							cur = Store(cur, r, App("mk_"+es, es, V(tn, as), App("off_"+es, "Int", old), App("len_"+es, "Int", old), App("cap_"+es, "Int", old), App("nil_"+es, "Bool", old)))
+							continue
+						}
+						f.declare(tn, es)
+						pre = append(pre, &Stmt{Kind: SHavoc, Var: tn, Sort: es})
+						cur = Store(cur, r, V(tn, es))
+					}
+					hav = append(hav, pre...)
+					hav = append(hav, &Stmt{Kind: SAssign, Var: v, Sort: f.Vars[v], E: cur, Note: "loop (cell-wise)"})
+					continue
+				}
+			}
+			// slice variables assigned only by element stores keep their shape
+			if strings.HasPrefix(f.Vars[v], "Slice_") {
+				srt := f.Vars[v]
+				shapeOnly := true
+				scan := func(stmts []*Stmt) {
+					for _, s := range stmts {
+						if (s.Kind != SAssign && s.Kind != SHavoc) || s.Var != v {
+							continue
+						}
+						ok := s.Kind == SAssign && s.E.Op == "mk_"+srt && len(s.E.Args) == 5
+						if ok {
+							for k, acc := range []string{"off_", "len_", "cap_", "nil_"} {
+								a := s.E.Args[k+1]
+								if !(a.Op == acc+srt && len(a.Args) == 1 && a.Args[0].Op == "var" && a.Args[0].Name == v) {
+									ok = false
+								}
+							}
+						}
+						if !ok {
+							shapeOnly = false
+						}
+					}
+				}
+				for id := b.Loop.FirstBody; id <= b.Loop.LastBody && id < len(f.Blocks); id++ {
+					if id == b.Loop.ExitID || id == b.ID {
+						continue
+					}
+					scan(f.Blocks[id].Stmts)
+				}
+				scan(b.Stmts[b.Loop.HavocAt:])
+				if shapeOnly {
+					fresh++
+					tn := fmt.Sprintf("$lh%d_%d", b.ID, fresh)
+					d := reg.decls[srt]
+					_ = d
+					as := arraySort("Int", reg.sliceElem(srt))
+					f.declare(tn, as)
+					cur := V(v, srt)
+					hav = append(hav, &Stmt{Kind: SHavoc, Var: tn, Sort: as})
+					hav = append(hav, &Stmt{Kind: SAssign, Var: v, Sort: srt, Note: "loop (elements only)",
+						E: App("mk_"+srt, srt, V(tn, as), App("off_"+srt, "Int", cur), App("len_"+srt, "Int", cur), App("cap_"+srt, "Int", cur), App("nil_"+srt, "Bool", cur))})
+					continue
+				}
 			}
 			hav = append(hav, &Stmt{Kind: SHavoc, Var: v, Sort: f.Vars[v], Note: "loop"})
 		}
